@@ -6,16 +6,32 @@ from . import build
 def main():
     t0 = time.time()
     sys.path.insert(0, build.VERIF)
-    bad = build.hygiene()
+    import json
+    claimed = json.load(open(os.path.join(build.VERIF, "vlib", "claimed.json")))
+    prefixes = set(claimed)
+    for pid in claimed:
+        try:
+            prefixes.update(getattr(importlib.import_module("props." + pid), "COQ_PREFIXES", [pid]))
+        except Exception:
+            pass
+    bad = build.hygiene(sorted(prefixes))
     if bad:
         print("hygiene: forbidden constructs:", bad); return 1
-    vs = sorted(f[:-2] + ".vo" for f in os.listdir(build.COQ) if f.endswith(".v"))
+    vs = []
+    for f in sorted(os.listdir(build.COQ)):
+        if not f.endswith(".v"):
+            continue
+        import re
+        m = re.match(r"^(?:Properties_)?(C\d\d)[_.]", f)
+        if m and m.group(1) not in prefixes:
+            continue
+        vs.append(f[:-2] + ".vo")
     ok, log = build.coq_make(vs, timeout=3400)
     print("coq: %s (%.0fs)" % ("ok" if ok else "FAILED", time.time() - t0))
     if not ok:
         print(log[-4000:])
     rc = 0 if ok else 1
-    plugins = sorted(f[:-3] for f in os.listdir(os.path.join(build.VERIF, "props")) if f.startswith("C") and f.endswith(".py"))
+    plugins = sorted(claimed)
     variants = set()
     mods = []
     for name in plugins:
